@@ -3,7 +3,7 @@
    common shape — atoms, (overhang of ovh atoms)(atoms, one wildcard run, atoms)(overhang of
    ovh atoms), atoms — and its declared cutter's recognition site is placed so that both
    cuts fall exactly at the starts of groups 1 and 3. Exhaustive; re-proved on every run. *)
-From MV Require Import Base Regex RegexLemmas Shape ShapeLemmas Typing TypingLemmas ShapeTyping Pipeline.
+From MV Require Import Base Regex RegexLemmas Shape ShapeLemmas Typing TypingLemmas ShapeTyping Pipeline InnerCuts AssemblyLemmas.
 From MV.Gen Require Import Kits Enzymes.
 From Coq Require Import String.
 
@@ -65,3 +65,91 @@ Proof.
   repeat split; auto; cbv [q4 p2]; lia.
 Qed.
 Print Assumptions C04_kits_cuts.
+
+(* ---------- last clause: no further cut strictly inside the target ------------------------- *)
+
+Definition cls_flanking (c : cls) : bool :=
+  match parse3 (cpat c) with
+  | Some sh => flanking (esite (cenz c)) (rc_codes (esite (cenz c))) (eoff (cenz c)) sh
+  | None => false
+  end.
+
+Definition nonpal (e : enzyme) : bool :=
+  negb (codes_eqb (esite e) (rc_codes (esite e))) && Nat.ltb 0 (List.length (esite e)).
+
+Definition is_module (c : cls) : bool := match crole c with RModule => true | RVector => false end.
+
+(* every kit cutter and every enzyme of the family is non-palindromic; the generic module class of
+   every enzyme is flanking; the kit module classes whose sites do not flank the target are listed *)
+Definition cutters_nonpal : bool :=
+  forallb (fun k => nonpal (cenz (kcls k))) kits &&
+  forallb (fun x => nonpal (snd x) && cls_flanking (generic_cls RModule (snd x))) enzymes.
+
+Lemma cutters_nonpal_true : cutters_nonpal = true.
+Proof. vm_compute. reflexivity. Qed.
+
+Lemma non_flanking_module_classes :
+  map kname (filter (fun k => is_module (kcls k) && negb (cls_flanking (kcls k))) kits) = ["YTKPart234r"%string].
+Proof. vm_compute. reflexivity. Qed.
+
+Lemma nonpal_spec e : nonpal e = true -> esite e <> rc_codes (esite e) /\ 0 < List.length (esite e).
+Proof.
+  unfold nonpal. intros H. apply andb_prop in H. destruct H as [H1 H2]. split.
+  - intros E. apply Bool.negb_true_iff in H1. assert (codes_eqb (esite e) (rc_codes (esite e)) = true); [|congruence].
+    now apply codes_eqb_spec.
+  - now apply Nat.ltb_lt.
+Qed.
+
+(* the conclusion, stated on the matched stretch g0 = pre . g1 . g2 . g3 . post (group 0), in its own
+   coordinates: group 1 starts at a1 and group 2 ends at b2 (so the target g1.g2 is [a1, b2) and b2 is the
+   downstream cut); NO occurrence of the recognition site, on either strand, anywhere in the matched
+   stretch, cuts strictly between a1 and b2 *)
+Definition no_cut_inside (e : enzyme) (m : rmatch) (s : list letter) : Prop :=
+  exists g0 a1 b2, group m s 0 = Some g0 /\
+    span m 1 = Some (a1 + mstart m, a1 + eovh e + mstart m) /\ (exists a2, span m 2 = Some (a2 + mstart m, b2 + mstart m)) /\
+    forall j, j < List.length g0 ->
+      (occurs_here (esite e) (skipn j g0) = true -> ~ (a1 < j + List.length (esite e) + eoff e < b2)) /\
+      (occurs_here (rc_codes (esite e)) (skipn j g0) = true -> ~ (a1 + eoff e + eovh e < j < b2 + eoff e + eovh e)).
+
+Lemma flanking_no_cut_inside c s m : cls_framed c = true -> cls_flanking c = true -> nonpal (cenz c) = true ->
+  typing c s true = Valid m -> no_cut_inside (cenz c) m s.
+Proof.
+  intros Hf Hfl Hn Ht. unfold cls_framed in Hf. unfold cls_flanking in Hfl.
+  destruct (parse3 (cpat c)) as [sh|] eqn:E; [|discriminate]. apply parse3_sound in E.
+  destruct (nonpal_spec _ Hn) as [Hnp Hs].
+  destruct (no_inner_cut c sh s m E Hf Hfl Hnp Hs Ht) as (pc & Hg0 & Hok & S1 & S2 & H).
+  exists (pieces_text pc), (p1 pc), (q3 pc). split; [exact Hg0|]. split.
+  - destruct Hok as (_ & Hg1 & _). pose proof (atoms_ok_length _ _ Hg1) as L1.
+    unfold frames in Hf. repeat (apply andb_prop in Hf; destruct Hf as [Hf ?]).
+    apply Nat.eqb_eq in Hf. rewrite S1. unfold p2. rewrite L1, Hf. reflexivity.
+  - split; [exists (p2 pc); exact S2|exact H].
+Qed.
+
+(* for every kit module class whose sites flank the target (all but the listed one) and every record it
+   accepts, well-formed or not, at every rotation *)
+Theorem C04_kits_no_inner_cut : forall k s m, In k kits -> cls_flanking (kcls k) = true ->
+  typing (kcls k) s true = Valid m -> no_cut_inside (cenz (kcls k)) m s.
+Proof.
+  intros k s m Hk Hfl Ht.
+  pose proof kits_framed_true as H. unfold kits_framed in H.
+  apply andb_prop in H. destruct H as [H _]. apply andb_prop in H. destruct H as [H _].
+  rewrite forallb_forall in H. specialize (H k Hk).
+  pose proof cutters_nonpal_true as Hn. unfold cutters_nonpal in Hn. apply andb_prop in Hn. destruct Hn as [Hn _].
+  rewrite forallb_forall in Hn. specialize (Hn k Hk).
+  now apply flanking_no_cut_inside.
+Qed.
+Print Assumptions C04_kits_no_inner_cut.
+
+(* and for the generic module class over every enzyme of the family *)
+Theorem C04_generic_no_inner_cut : forall name e s m, In (name, e) enzymes ->
+  typing (generic_cls RModule e) s true = Valid m -> no_cut_inside e m s.
+Proof.
+  intros name e s m Hin Ht.
+  pose proof enzymes_framed_true as H. unfold enzymes_framed in H.
+  apply andb_prop in H. destruct H as [H _]. rewrite forallb_forall in H. specialize (H _ Hin). cbn [snd] in H.
+  apply andb_prop in H. destruct H as [Hm _].
+  pose proof cutters_nonpal_true as Hn. unfold cutters_nonpal in Hn. apply andb_prop in Hn. destruct Hn as [_ Hn].
+  rewrite forallb_forall in Hn. specialize (Hn _ Hin). cbn [snd] in Hn. apply andb_prop in Hn. destruct Hn as [Hn Hfl].
+  exact (flanking_no_cut_inside (generic_cls RModule e) s m Hm Hfl Hn Ht).
+Qed.
+Print Assumptions C04_generic_no_inner_cut.
